@@ -34,6 +34,8 @@ def check_spec(spec, res, runner_name):
             c = log.count(f"watch{w}")
             if c < 1 or c > log.count("tick"):
                 problems.append(f"watch{w} ran {c} times with {log.count('tick')} productions of the signal")
+            if spec.get("two_names") and c != 1:
+                problems.append(f"watch{w} waits for the one-shot signal 'ready' as well: it ran {c} times, 'ready' was produced once")
     for pb in problems:
         res.fail(kind="oracle", function="get_ready_nodes/_wait_for_satisfied/_defer_wait_for_nodes", what=pb, runner=runner_name, replay={"harness": "C17", "spec": spec, "runner": runner_name})
 
@@ -54,6 +56,18 @@ def run(tier, seed, functions):
         spec["nested"] = False
         check_spec(spec, res, "sync")
         check_spec(spec, res, "async")
+    # systematic part (independent of the dice above): waiters on TWO names - a signal re-emitted by every loop iteration and a
+    # one-shot signal, listed in either order -, whose data is re-supplied by every iteration and first arrives 0..3 steps late
+    for limit in ((2, 4) if tier == "quick" else (1, 2, 3, 4)):
+        for chain in range(4):
+            for order in ("tick_first", "ready_first"):
+                for watch_first in (True, False):
+                    for watch_count in (True, False):
+                        for is_async in (False, True):
+                            spec = {"family": "ticker", "limit": limit, "chain": chain, "watch_first": watch_first, "n_watch": 1, "async": is_async, "watch_data": True,
+                                    "two_names": order, "watch_count": watch_count}
+                            check_spec(spec, res, "sync")
+                            check_spec(spec, res, "async")
     return res
 
 
